@@ -165,3 +165,8 @@ for _pid in ("C07", "C12"):
         T("Props.C07Sched.NoTorn_false_stale", "negation", "the exclusion of stale releases is needed (a torn view without any expiry after a stale release)"),
         T("Props.C07Sched.NoTorn_false_expire", "negation", "the exclusion of expiry is needed"),
     ]
+
+# C07: plain hits racing a stream of refreshes on the real cache (free-running search stream, like concget)
+p = PROPS["C07"]
+p["streams"] += [S("concrefresh", 8, 120)]
+p["rule"] += " | concrefresh: 1200 refreshes of one entry (expiry, revalidating writer, <name>.tmp + rename; every version has its own length and validator) against 6 goroutines reading it as plain hits through the public Cache.Get; a hit whose validator, Size and bytes belong to different versions is a failure; free-running (no scheduler): part of the search for a failing input, the model's answer is the constant the pinned read shape gives"
